@@ -22,8 +22,12 @@ import time
 import traceback
 
 HERE = os.path.dirname(os.path.dirname(os.path.abspath(__file__)))
-EVIDENCE_DIR = os.path.join(HERE, 'evidence')
-REPLAY_DIR = os.path.join(HERE, 'replays')
+# PV_OUT_DIR: where evidence/ and replays/ go (default: beside the code);
+# sensitivity runs against patched copies point it elsewhere so that they
+# never overwrite the evidence of the real tree
+OUT = os.environ.get('PV_OUT_DIR') or HERE
+EVIDENCE_DIR = os.path.join(OUT, 'evidence')
+REPLAY_DIR = os.path.join(OUT, 'replays')
 KNOWN_FILE = os.path.join(HERE, 'known_findings.json')
 NCPU = 16
 
@@ -247,7 +251,7 @@ def run_check(prop, tier, replay=None):
                        'detail': v.get('detail'), 'replay': v.get('replay')},
                       f, indent=1, default=str)
         lines.append('VIOLATION property=%s replay=%s' % (
-            prop, os.path.relpath(path, HERE)))
+            prop, os.path.relpath(path, OUT) if OUT == HERE else path))
 
     known = KnownFindings(prop)
     known_lines = []
